@@ -38,6 +38,7 @@ pub enum Val {
     /// does not involve a count (parameters, pointers, projections, …)
     Pure,
     Lit(u128),
+    Bool(bool),
     /// the constant `MAX_REFCOUNT`
     Max,
     /// the value returned by a `fetch_add` / `fetch_sub` on the count
@@ -53,6 +54,7 @@ impl Val {
         match self {
             Val::Cmp(c, l, r) => Val::Cmp(c.negate(), l, r),
             Val::Not(v) => *v,
+            Val::Bool(b) => Val::Bool(!b),
             Val::Unknown => Val::Unknown,
             v => Val::Not(Box::new(v)),
         }
@@ -192,12 +194,25 @@ impl<'a, 'b> Lowerer<'a, 'b> {
         let e = peel(e);
         let line = e.span().start().line;
         match e {
-            Expr::If(i) => {
-                let node = self.if_node(fr, i, stack);
-                fr.out.push(node);
-            }
-            Expr::Match(m) => {
-                let node = self.match_node(fr, m, stack);
+            Expr::If(_) | Expr::Match(_) => {
+                let node = match e {
+                    Expr::If(i) => self.if_node(fr, i, stack),
+                    Expr::Match(m) => self.match_node(fr, m, stack),
+                    _ => unreachable!(),
+                };
+                if is_tail {
+                    // `if c { true } else { false }` / `match n { 1 => true, _ => false }` as the result
+                    if let (Some((t, f)), Node::If { cond, then, els, .. }) = (self.bool_arms(fr, e, stack), &node) {
+                        if then.is_empty() && els.is_empty() {
+                            fr.result = match (t, f) {
+                                (true, false) => cond.clone(),
+                                (false, true) => cond.clone().negate(),
+                                _ => Val::Unknown,
+                            };
+                            return;
+                        }
+                    }
+                }
                 fr.out.push(node);
             }
             Expr::Return(r) => {
@@ -212,6 +227,15 @@ impl<'a, 'b> Lowerer<'a, 'b> {
                 fr.out.push(Node::Return { at: self.at(fr, line) });
             }
             Expr::Macro(m) => self.macro_stmt(fr, &m.mac, line),
+            Expr::Assign(a) => {
+                // a tracked local is overwritten: whatever was known about it is gone
+                self.forget_assigned(fr, &a.left);
+                fr.out.push(Node::Other { why: "assignment".into(), at: self.at(fr, line) });
+            }
+            Expr::Binary(b) if is_compound_assign(&b.op) => {
+                self.forget_assigned(fr, &b.left);
+                fr.out.push(Node::Other { why: "assignment".into(), at: self.at(fr, line) });
+            }
             Expr::Unsafe(u) => {
                 let st = flatten(&u.block);
                 self.block(fr, &st, false, stack);
@@ -225,6 +249,62 @@ impl<'a, 'b> Lowerer<'a, 'b> {
                 if is_tail {
                     fr.result = v;
                 }
+            }
+        }
+    }
+
+    /// both arms of an `if`/`else` or of a two-armed `match` are boolean literals: (first arm, second arm)
+    fn bool_arms(&self, _fr: &Frame, e: &Expr, _stack: &mut Vec<usize>) -> Option<(bool, bool)> {
+        fn lit_bool(e: &Expr) -> Option<bool> {
+            match peel_all(e) {
+                Expr::Lit(l) => match &l.lit {
+                    syn::Lit::Bool(b) => Some(b.value),
+                    _ => None,
+                },
+                _ => None,
+            }
+        }
+        fn block_bool(b: &syn::Block) -> Option<bool> {
+            match b.stmts.as_slice() {
+                [Stmt::Expr(e, None)] => lit_bool(e),
+                _ => None,
+            }
+        }
+        match e {
+            Expr::If(i) => {
+                let t = block_bool(&i.then_branch)?;
+                let f = match &i.else_branch {
+                    Some((_, e)) => lit_bool(e)?,
+                    None => return None,
+                };
+                Some((t, f))
+            }
+            Expr::Match(m) if m.arms.len() == 2 => Some((lit_bool(&m.arms[0].body)?, lit_bool(&m.arms[1].body)?)),
+            _ => None,
+        }
+    }
+
+    fn forget_assigned(&self, fr: &mut Frame, place: &Expr) {
+        let mut e = place;
+        loop {
+            match e {
+                Expr::Paren(p) => e = &p.expr,
+                Expr::Group(g) => e = &g.expr,
+                Expr::Unary(u) => e = &u.expr,
+                Expr::Field(f) => e = &f.base,
+                Expr::Index(i) => e = &i.expr,
+                _ => break,
+            }
+        }
+        if let Expr::Path(p) = e {
+            if p.path.segments.len() == 1 {
+                let id = p.path.segments[0].ident.to_string();
+                for (n, v) in fr.env.iter_mut() {
+                    if *n == id {
+                        *v = Val::Unknown;
+                    }
+                }
+                fr.env.push((id, Val::Unknown));
             }
         }
     }
@@ -322,9 +402,10 @@ impl<'a, 'b> Lowerer<'a, 'b> {
         let e = peel_all(e);
         let line = e.span().start().line;
         match e {
-            Expr::Lit(_) => match int_lit(e) {
-                Some(n) => Val::Lit(n),
-                None => Val::Pure,
+            Expr::Lit(l) => match (&l.lit, int_lit(e)) {
+                (syn::Lit::Bool(b), _) => Val::Bool(b.value),
+                (_, Some(n)) => Val::Lit(n),
+                _ => Val::Pure,
             },
             Expr::Path(p) => {
                 let segs = path_idents(&p.path);
@@ -445,6 +526,11 @@ impl<'a, 'b> Lowerer<'a, 'b> {
         }
         self.fallback(fr, e, line)
     }
+}
+
+fn is_compound_assign(op: &syn::BinOp) -> bool {
+    use syn::BinOp::*;
+    matches!(op, AddAssign(_) | SubAssign(_) | MulAssign(_) | DivAssign(_) | RemAssign(_) | BitXorAssign(_) | BitAndAssign(_) | BitOrAssign(_) | ShlAssign(_) | ShrAssign(_))
 }
 
 fn bind_unknown(p: &syn::Pat, env: &mut Vec<(String, Val)>) {
